@@ -59,7 +59,7 @@ func c08tuples(c *core.Ctx, r *core.Report) {
 		r.Fail("infra.floor", "R08.tuples|producers", "", "fewer than 5 tuple producers derived from go/ssa")
 		return
 	}
-	targets := core.InlinedInstrs(c, fn, 1, func(ins ssa.Instruction) bool {
+	targets := core.InlinedInstrs(c, fn, c.Depth(1), func(ins ssa.Instruction) bool {
 		call, ok := ins.(*ssa.Call)
 		if !ok {
 			return false
